@@ -9,6 +9,9 @@ injects the fault described by its `fault` dict:
   {"kind": "eval_raise",   "k": k}                the k-th evaluation (global counter) raises
   {"kind": "eval_exit",    "k": k, "code": 3}     ... calls os._exit(code)
   {"kind": "eval_sigkill", "k": k}                ... sends SIGKILL to its own process
+  {"kind": "eval_keyboardinterrupt", "k": k}      ... raises KeyboardInterrupt (a BaseException that is not an Exception)
+  {"kind": "sigint",       "k": k}                ... sends SIGINT to its own process while it plays (KeyboardInterrupt
+                                                   is raised asynchronously in the main thread)
   {"kind": "eval_sysexit0","k": k}                ... raises SystemExit(0)   (probe only)
   {"kind": "torn_put",     "game": g}             the worker is SIGKILLed while the feeder thread of
                                                    the `games` queue is in the middle of writing its
@@ -102,6 +105,14 @@ class UniformNet:
             n = fac.shared["evals"].value
             fac.shared["evals"].value = n + 1
         kind = fac.fault.get("kind")
+        if kind in ("eval_keyboardinterrupt", "sigint") and n == fac.fault.get("k"):
+            # not an Exception: leaves entrypoint; multiprocessing prints the traceback, exit status 1
+            fac.log("fault", kind="raise", where="eval", n=n, exc="KeyboardInterrupt", via=kind)
+            if kind == "eval_keyboardinterrupt":
+                raise KeyboardInterrupt()
+            os.kill(os.getpid(), signal.SIGINT)
+            time.sleep(30)          # the interrupt arrives here
+            raise RuntimeError("SIGINT was not delivered")
         if kind in ("eval_raise", "eval_exit", "eval_sigkill", "eval_sysexit0") and n == fac.fault.get("k"):
             if kind == "eval_raise":
                 fac.log("fault", kind="raise", where="eval", n=n)
